@@ -431,6 +431,8 @@ func (r *ltsRun) play(ops []string) string {
 			}
 		case "z":
 			time.Sleep(3 * time.Millisecond)
+		case "zz": // nothing happens for this many milliseconds (the model has no clock: a pause)
+			time.Sleep(time.Duration(atoi(p[1])) * time.Millisecond)
 		case "n":
 			time.Sleep(5 * time.Millisecond)
 			if r.nframes() > atoi(p[1]) {
